@@ -81,7 +81,7 @@ _RE_DEPTH = re.compile(r"The depth of the complete state graph search is (\d+)")
 
 
 def run_tlc(module, cfg=None, files=None, workers=1, timeout=600, extra=None, heap="3g",
-            want_cases=False, deque=False, cfg_text=None):
+            want_cases=False, deque=False, cfg_text=None, read_back=None):
     """Run TLC on spec/<module>.tla with spec/<cfg>.cfg in a scratch copy of the spec dir.
 
     files: {name_in_scratch: source_path} copied next to the modules (trace files).
@@ -143,6 +143,12 @@ def run_tlc(module, cfg=None, files=None, workers=1, timeout=600, extra=None, he
         r.error = em.group(1).strip()
     for cm in re.finditer(r"^\s*(line \d+, col \d+ to line \d+, col \d+ of module \w+): 0\s*$", r.out, re.M):
         r.coverage_zero.append(cm.group(1))
+    r.files = {}
+    for name in (read_back or []):
+        try:
+            r.files[name] = open(os.path.join(d, name)).read()
+        except OSError:
+            pass
     shutil.rmtree(d, ignore_errors=True)
     return r
 
